@@ -49,7 +49,7 @@ def explore(ctx, scale=1.0):
             return ("err", type(ex).__name__)
 
     # ---------------- (1) arguments are not modified ----------------
-    n_args = int((3000 if ctx.thorough else 250) * scale)
+    n_args = int((2000 if ctx.thorough else 250) * scale)
     P0 = trees.parser(False, False)
     for i in range(n_args):
         text = rng.choice(pool)
@@ -100,7 +100,7 @@ def explore(ctx, scale=1.0):
             ctx.violation(f"modified:{call}", f"{call} modified the dictionary passed to it", {"text": text, "call": call})
 
     # ---------------- (2) reused worker objects vs fresh ones ----------------
-    n_seq = int((400 if ctx.thorough else 18) * scale)
+    n_seq = int((150 if ctx.thorough else 18) * scale)
     for s in range(n_seq):
         seq = [rng.choice(pool) for _ in range(rng.randint(3, 12 if ctx.thorough else 7))]
         com = rng.random() < .6
@@ -127,7 +127,7 @@ def explore(ctx, scale=1.0):
                 break
 
     # ---------------- (3) threads ----------------
-    rounds = int((12 if ctx.thorough else 1) * scale)
+    rounds = int((5 if ctx.thorough else 1) * scale)
     texts = [t for t in pool if len(t) < 3000][:40]
     def work(text, com):
         d = mappyfile.loads(text, include_comments=com, expand_includes=False)
